@@ -41,7 +41,7 @@ def build(case):
     K, N, D = case['K'], case['N'], case['D']
     real = kind in models.REAL
     dt = DT[case.get('dtype', 'f64' if real else 'c128')]
-    s.data = models.make_data(rng, kind, lead, K, N, D, cls=case.get('cls', 'gauss'), dtype=dt, E=case.get('E'))
+    s.data = models.make_data(rng, kind, lead, K, N, D, cls=case.get('cls', 'gauss'), dtype=dt, E=case.get('E'), spread=case.get('spread', 3.0))
     s.K, s.N, s.D, s.lead = K, N, D, lead
     aff_shape = (*lead, K, N)
     s.aff_shape = aff_shape
@@ -80,6 +80,8 @@ def build(case):
         s.saliency = None
     elif sal == 'pos':
         s.saliency = rng.uniform(0.1, 1.0, size=sal_shape)
+        if lead and o.get('saliency_slice_scale'):
+            s.saliency = s.saliency * 10 ** rng.uniform(-1, 1, size=(*lead, 1))    # slices with different total saliency
     elif sal == 'zeros':
         s.saliency = rng.uniform(0.1, 1.0, size=sal_shape)
         z = rng.uniform(size=sal_shape) < 0.2
@@ -88,8 +90,17 @@ def build(case):
         s.saliency = rng.integers(1, 5, size=sal_shape).astype(np.float64)
     else:
         raise ValueError(sal)
+    if s.saliency is not None and sal == 'zeros' and s.init is not None:
+        # every class keeps saliency-weighted mass in every slice: un-zero the frame where the class is strongest
+        ini = np.broadcast_to(s.init, aff_shape)
+        for idx in np.ndindex(*lead):
+            for k in range(K):
+                n_ = int(np.argmax(ini[idx][k]))
+                if s.saliency[idx][n_] == 0:
+                    s.saliency[idx][n_] = 0.5
     if s.saliency is not None:
         opts['saliency'] = s.saliency
+    copts['saliency'] = s.saliency
     s.mask = None
     if o.get('mask'):
         m = rng.uniform(size=aff_shape) < 0.75
